@@ -438,7 +438,7 @@ class DataFile:
     if not self.is_in_extension:
       self.tti_tf = b''
 
-    self.tti_tf += tti.TF.strip(b'\x8f')
+    self.tti_tf += tti.TF.rstrip(b'\x8f')
 
     is_double_height_characters = tf.has_double_height_char(self.tti_tf)
 
